@@ -176,6 +176,9 @@ func (ctx Ctx) field(f *ast.Field) coq.FieldDecl {
 func (ctx Ctx) paramList(fs *ast.FieldList) []coq.FieldDecl {
 	var decls []coq.FieldDecl
 	for _, f := range fs.List {
+		if _, ok := f.Type.(*ast.Ellipsis); ok {
+			ctx.unsupported(f, "variadic parameter")
+		}
 		ty := ctx.coqType(f.Type)
 		for _, name := range f.Names {
 			decls = append(decls, coq.FieldDecl{
